@@ -379,6 +379,38 @@ def kb_kinds(tier):
 
 
 # ------------------------------------------------------------------ tasks
+LONG_LENGTHS = [n + d for n in (256, 1024, 4096, 8192, 12288, 16384, 65536) for d in (-1, 0, 1, 2)]
+
+
+def long_input(length):
+    return bytes((i * 37 + (i >> 8) * 101 + 11) & 0xFF for i in range(length))
+
+
+def long_reads(adapter_factory, lengths, interleave_writes):
+    """inputs far longer than any short-string family (boundary lengths around powers of two), read to the end and three reads beyond;
+    optionally a written bit between the reads (input and output channels are independent)"""
+    n, bad = 0, []
+    for length in lengths:
+        data = long_input(length)
+        ad = adapter_factory(data)
+        if hasattr(ad, '_bind'):
+            ad._bind()
+        model = PackModel(data)
+        for k in range(8 * length + 3):
+            ops = ('read', 'w1') if interleave_writes and k % 9 == 4 else ('read',)
+            for op in ops:
+                exp, got = model.step(op), apply_op(ad.dev, op)
+                n += 1
+                if got != exp:
+                    break
+            if got != exp:
+                if len(bad) < 5:
+                    bad.append({'device': ad.name, 'long_input_length': length, 'interleave_writes': interleave_writes, 'read_index': k,
+                                'expected': list(exp), 'observed': list(got), 'what': f'read number {k} (bit {k % 8} of byte {k // 8}) of a {length}-byte input'})
+                break
+    return n, bad
+
+
 def work(task):
     kind = task[0]
     sieve = Sieve(PROP)
@@ -411,6 +443,13 @@ def work(task):
         for b in bad:
             sieve.add(record(b))
         return {'states': 0, 'transitions': n, 'inputs': len(inputs)}, sieve.result()
+    if kind == 'longreads':
+        _, dev, lengths, inter = task
+        fac = FixedAdapter if dev == 'fixed' else (lambda d: StandardAdapter(d, True))
+        n, bad = long_reads(fac, lengths, inter)
+        for b in bad:
+            sieve.add(record(b))
+        return {'states': 0, 'transitions': n, 'long_inputs': len(lengths)}, sieve.result()
     if kind == 'kb':
         n, scripts, streams, bad = kb_work(task[1:])
         for b in bad:
@@ -484,6 +523,10 @@ def make_tasks(tier):
         tasks.append(('reads', 'fixed', first))
     for first in range(0, 256):
         tasks.append(('reads', 'std', first))
+    for dev in ('fixed', 'std'):
+        for inter in (False, True):
+            for i in range(0, len(LONG_LENGTHS), 4):
+                tasks.append(('longreads', dev, LONG_LENGTHS[i:i + 4], inter))
     for first in range(len(kb_kinds(tier))):
         tasks.append(('kb', tier, first))
     if tier == 'thorough':
@@ -504,6 +547,11 @@ def replay(args):
     elif c['device'] == 'BrokenIO':
         stats, res = work(('broken',))
         bad = bool(res[0])
+    elif 'long_input_length' in c:
+        fac = FixedAdapter if c['device'] == 'FixedIO' else (lambda d: StandardAdapter(d, True))
+        n, found = long_reads(fac, [c['long_input_length']], c['interleave_writes'])
+        print(found)
+        bad = bool(found)
     else:
         fac = FixedAdapter if c['device'] == 'FixedIO' else (lambda d: StandardAdapter(d, True))
         ad = fac(bytes(c['input']))
